@@ -1111,6 +1111,20 @@ func (m *Nitro) StoreToDisk(dir string, snap *Snapshot, concurr int, itmCallback
 	return err
 }
 
+// hasDuplicates reports whether a manifest lists the same file twice. A backup
+// never does; a damaged manifest that names one shard in place of another would
+// otherwise load that shard twice whenever the two shards' checksums coincide.
+func hasDuplicates(files []string) bool {
+	seen := make(map[string]bool, len(files))
+	for _, f := range files {
+		if seen[f] {
+			return true
+		}
+		seen[f] = true
+	}
+	return false
+}
+
 // LoadFromDisk restores Nitro from a disk backup
 func (m *Nitro) LoadFromDisk(dir string, concurr int, callb ItemCallback) (*Snapshot, error) {
 	var wg sync.WaitGroup
@@ -1140,6 +1154,9 @@ func (m *Nitro) LoadFromDisk(dir string, concurr int, callb ItemCallback) (*Snap
 	}
 	if err = json.Unmarshal(bs, &files); err != nil {
 		return nil, err
+	}
+	if hasDuplicates(files) {
+		return nil, ErrCorruptSnapshot
 	}
 
 	if bs, err := ioutil.ReadFile(filepath.Join(datadir, "checksums.json")); err == nil {
@@ -1252,6 +1269,9 @@ func (m *Nitro) LoadFromDisk(dir string, concurr int, callb ItemCallback) (*Snap
 		if bs, err := ioutil.ReadFile(filepath.Join(deltadir, "files.json")); err == nil {
 			if err = json.Unmarshal(bs, &files); err != nil {
 				return nil, err
+			}
+			if hasDuplicates(files) {
+				return nil, ErrCorruptSnapshot
 			}
 		}
 
